@@ -280,7 +280,7 @@ func (e *Engine) load(st *state, addr *Val, t types.Type) *Val {
 	}
 	if addr.Op == "index" {
 		base := addr.Args[0]
-		for base.Op == "slice" && base.Args[1] == nil {
+		for (base.Op == "slice" && base.Args[1] == nil) || base.Op == "arrayptr" {
 			base = base.Args[0]
 		}
 		if c, ok := st.content[base.Key()]; ok {
@@ -359,8 +359,18 @@ func (e *Engine) store(st *state, fr *frame, addr, v *Val, instr ssa.Instruction
 		}
 	}
 	st.mem[addr.Key()] = memEntry{Addr: addr, V: v}
+	// an element store into a slice whose bytes are known in bulk (filled by a read, staged number …) changes them
+	if addr.Op == "index" {
+		base := addr.Args[0]
+		for base.Op == "slice" && base.Args[1] == nil {
+			base = base.Args[0]
+		}
+		if old, ok := st.content[base.Key()]; ok {
+			st.content[base.Key()] = &Val{Op: "elemstore", Args: []*Val{old, addr.Args[1], v}, Type: old.Type}
+		}
+	}
 	root := addrRoot(addr)
-	if root == nil || root.Op != "alloc" {
+	if root == nil || (root.Op != "alloc" && root.Op != "makeslice") { // memory made on this path is local
 		ev := e.addEvent(st, fr, &Event{Kind: EvStore, Dst: addr, Src: v}, instr)
 		if c := e.contentOf(st, v); c != v {
 			ev.Args = []*Val{c} // what the stored slice holds at this point
@@ -1209,7 +1219,16 @@ func (e *Engine) step(st *state, fr *frame, instr ssa.Instruction) {
 		}
 		fr.env[in] = &Val{Op: "iface", Args: []*Val{x}, Type: in.Type(), Aux: in.X.Type()}
 	case *ssa.SliceToArrayPointer:
-		fr.env[in] = e.val(fr, in.X)
+		x := e.val(fr, in.X)
+		n := int64(0)
+		if p, ok := in.Type().Underlying().(*types.Pointer); ok {
+			if arr, ok := p.Elem().Underlying().(*types.Array); ok {
+				n = arr.Len()
+			}
+		}
+		// converting a slice to an array (pointer) panics when the slice is shorter than the array
+		e.addEvent(st, fr, &Event{Kind: EvPanicSite, Mode: "slice2array", Args: []*Val{x, mkInt(n)}}, in)
+		fr.env[in] = &Val{Op: "arrayptr", Args: []*Val{x}, Type: in.Type()}
 	case *ssa.Extract:
 		t := e.val(fr, in.Tuple)
 		if t.Op == "tuple" && in.Index < len(t.Args) {
